@@ -42,8 +42,8 @@ def _emit(repo, cname, mname, args, kinds):
 
     def take(a):
         h = a[0]
-        if isinstance(h, Closure):
-            h = h([], {})
+        if not isinstance(h, Obj):
+            h = interp.apply(h, [], {})    # a request factory: lambda, functools.partial, bound method
         sent.append(_bytes_of(interp, h))
         dests.append(a[1] if len(a) > 1 else None)
         return h
